@@ -52,4 +52,14 @@
 	VCOVER(r != NULL && GO_HAVE_WORD && r != GO_WORD && r != popt && optarg == NULL && opt_found == opt_default && GO_WORD[1] == '-' && opt_missing != opt_default);	/* --flag=value */ \
 	VCOVER(r != NULL && r != popt && opt_found == GO_NOPTS_MAX - 1 && optarg == NULL && GO_HAVE_WORD && GO_WORD[1] == '-');	/* long flag in last slot */
 
+/* a smaller set for the memory-safety group (each marker is one more SAT call) */
+#define GO_STEP_COVER_MIN() \
+	VCOVER(r == NULL && s_optind >= a_c && a_c == GO_ARGC_MAX); \
+	VCOVER(r == NULL && GO_HAVE_WORD && a_l[s_optind] == 1 && GO_WORD[0] == '-' && optind == s_optind);	/* "-" */ \
+	VCOVER(r == popt && s_pack && packedopts == NULL && optind == s_optind + 1);	/* unknown, ends a pack */ \
+	VCOVER(r != NULL && s_pack && optarg != NULL && optarg == &GO_WORD[s_pk + 1]);	/* -abVALUE */ \
+	VCOVER(r != NULL && optarg != NULL && s_optind + 1 < a_c && optarg == a_v[s_optind + 1] && optind == a_c && a_l[s_optind] == GO_STRMAX && GO_WORD[1] == '-');	/* --longest VALUE at the end of argv */ \
+	VCOVER(r != NULL && optarg != NULL && GO_HAVE_WORD && GO_WORD[1] == '-' && GO_IN_WORD(optarg) && optarg[-1] == '=' && optarg[0] == '\0' && a_l[s_optind] == GO_STRMAX);	/* --foo= */ \
+	VCOVER(r != NULL && r != popt && optarg == NULL && opt_found == opt_missing && optind == a_c && opt_found != opt_default);	/* missing argument */
+
 #endif /* !GO_STATE_H_ */
